@@ -182,9 +182,10 @@ func (b *BoundedBacktracker) reset(state *BacktrackerState, haystackLen int) {
 	state.Generation++
 	// Handle overflow by clearing array (every 65536 searches - rare)
 	if state.Generation == 0 {
-		for i := range state.Visited {
-			state.Visited[i] = 0
-		}
+		// Clear the whole backing array, not just the part in use: entries beyond
+		// the current length keep marks of earlier, larger searches, and after the
+		// wrap those generation numbers are handed out again.
+		clear(state.Visited[:cap(state.Visited)])
 		state.Generation = 1
 	}
 }
@@ -320,9 +321,7 @@ func (b *BoundedBacktracker) SearchAtWithState(haystack []byte, at int, state *B
 		state.Generation++
 		// Handle overflow by resetting the array (every 256 searches)
 		if state.Generation == 0 {
-			for i := range state.Visited {
-				state.Visited[i] = 0
-			}
+			clear(state.Visited[:cap(state.Visited)]) // whole backing array, see reset
 			state.Generation = 1
 		}
 	}
